@@ -233,6 +233,49 @@ theorem attr_uses_first (sv : Service) (rest : List Service) (pt : Port) (ports 
     portsOf, hsv, findMethod, methodsOf, pure, Except.pure]
   split <;> simp_all
 
+/-- `pyIndex` is `none` exactly outside `-len ≤ i < len`. -/
+theorem pyIndex_none_iff (len : Nat) (i : Int) :
+    pyIndex len i = none ↔ ((len : Int) ≤ i ∨ i < -(len : Int)) := by
+  unfold pyIndex
+  split
+  · split <;> simp <;> omega
+  · split <;> simp <;> omega
+
+/-- Inside the range an index from the end names position `len + i`. -/
+theorem pyIndex_negative (len : Nat) (i : Int) (h0 : i < 0) (h1 : -(len : Int) ≤ i) :
+    pyIndex len i = some (len + i).toNat := by
+  unfold pyIndex
+  have : ¬ (0 ≤ i) := by omega
+  simp only [this, if_false]
+  have h2 : (-i).toNat ≤ len := by omega
+  simp only [h2, if_true]
+  congr 1
+  omega
+
+/-- **Any index outside the list - also a negative one - is reported as not found**, never as a
+Python IndexError: for services ... -/
+theorem service_index_outside (svcs : List Service) (i : Int) (hne : svcs ≠ [])
+    (h : (svcs.length : Int) ≤ i ∨ i < -(svcs.length : Int)) :
+    findService svcs (.idx i) = .error .serviceNotFound := by
+  have he : svcs.isEmpty = false := by cases svcs <;> simp_all
+  have : pyIndex svcs.length i = none := (pyIndex_none_iff _ _).mpr h
+  simp [findService, he, this]
+
+/-- ... and for ports. -/
+theorem port_index_outside (svcs : List Service) (s : Nat) (i : Int) (hne : portsOf svcs s ≠ [])
+    (h : ((portsOf svcs s).length : Int) ≤ i ∨ i < -((portsOf svcs s).length : Int)) :
+    findPort svcs s (.idx i) = .error .portNotFound := by
+  have he : (portsOf svcs s).isEmpty = false := by cases hp : portsOf svcs s <;> simp_all
+  have : pyIndex (portsOf svcs s).length i = none := (pyIndex_none_iff _ _).mpr h
+  simp [findPort, he, this]
+
+/-- An index from the end inside the list selects that port. -/
+theorem port_index_from_end (svcs : List Service) (s : Nat) (i : Int) (hne : portsOf svcs s ≠ [])
+    (h0 : i < 0) (h1 : -((portsOf svcs s).length : Int) ≤ i) :
+    findPort svcs s (.idx i) = .ok ((portsOf svcs s).length + i).toNat := by
+  have he : (portsOf svcs s).isEmpty = false := by cases hp : portsOf svcs s <;> simp_all
+  simp [findPort, he, pyIndex_negative _ _ h0 h1]
+
 /-! ### Non-vacuity -/
 def demo : List Service :=
   [⟨"S1", [⟨"P1", ["f", "g"]⟩, ⟨"P2", ["f"]⟩]⟩, ⟨"S2", [⟨"Q1", ["h"]⟩]⟩]
@@ -243,5 +286,7 @@ example : eval demo ⟨some (.name "S1"), none⟩ [.item (.name "P2"), .attr "f"
 example : eval demo ⟨none, some (.name "P2")⟩ [.attr "g"] = .error .methodNotFound := by rfl
 example : eval demo ⟨none, none⟩ [.item (.name "S3"), .attr "f"] = .error .serviceNotFound := by rfl
 example : eval demo ⟨none, none⟩ [.item (.idx 2)] = .error .serviceNotFound := by rfl
+example : findPort demo 0 (.idx (-7)) = .error .portNotFound := by rfl
+example : eval demo ⟨none, none⟩ [.item (.idx (-7))] = .error .serviceNotFound := by rfl
 
 end Suds.Props.C10
